@@ -233,17 +233,24 @@ example : AllAscii ['H', 'e', 'l', 'l', 'o'] := by
   intro c hc; simp at hc; rcases hc with rfl | rfl | rfl | rfl | rfl <;> decide
 example : Model.MethStr.substring ['H', 'e', 'l', 'l', 'o'] [.int 5, .int 2] = .bytes [108, 108, 111] := by decide
 
-/-- replace(search, replace) with string arguments: every occurrence. -/
+/-- replace(search, replace) with string arguments: every occurrence, left to
+right, non-overlapping; an empty search text matches before every character
+and at the end. -/
 theorem C15_str_replace_refines (s : List Char) (search repl : String) (more : List Val) :
-    Model.MethStr.replace s (.str search :: .str repl :: more) = .text (Spec.JsStr.replace s search.toList repl.toList) :=
-  rfl
+    Model.MethStr.replace s (.str search :: .str repl :: more) = .text (Spec.JsStr.replace s search.toList repl.toList) := by
+  rw [Proofs.MethStr.spec_replace_eq]; rfl
 
-/-- split(separator?): omitted / null → at white space; else at every occurrence. -/
+example : Model.MethStr.replace "Hello World".toList [.str "o", .str "0"] = .text "Hell0 W0rld".toList := by decide
+
+/-- split(separator?): omitted / null → at white space; else the pieces between
+consecutive occurrences (empty separator: the characters). -/
 theorem C15_str_split_refines (s : List Char) :
     Model.MethStr.split s [] = .texts (Spec.JsStr.split s none) ∧
     (∀ more, Model.MethStr.split s (.null :: more) = .texts (Spec.JsStr.split s none)) ∧
     (∀ (sep : String) more, Model.MethStr.split s (.str sep :: more) = .texts (Spec.JsStr.split s (some sep.toList))) :=
-  ⟨rfl, fun _ => rfl, fun _ _ => rfl⟩
+  ⟨rfl, fun _ => rfl, fun sep _ => by rw [Proofs.MethStr.spec_split_eq]; rfl⟩
+
+example : Model.MethStr.split "a,b,,c".toList [.str ","] = .texts ["a".toList, "b".toList, [], "c".toList] := by decide
 
 theorem C15_str_trim_refines (s : List Char) : Model.MethStr.trim s = .text (Spec.JsStr.trim s) := rfl
 
